@@ -24,8 +24,23 @@ func ZZ_C17_errorAccounting() {
 	// (update deletion); node2: no pod (creation)
 	dup := nondet.Bool("withDuplicate")
 	c.Pods = append(c.Pods, zzPod("pod0", zzNodeName(0), zzRSName, zzHashNew, 0, corev1.PodRunning, true, nondet.Base().Add(-120*1e9)))
+	// the clean-up list may also hold a duplicate that an earlier sync already deleted and the kubelet has
+	// not removed yet (nothing is sent for it), listed before or after the one to delete now
+	terminatingDup := func() {
+		p := zzPod("pod0gone", zzNodeName(0), zzRSName, zzHashNew, 0, corev1.PodRunning, true, nondet.Base().Add(-90*1e9))
+		t := metav1.NewTime(nondet.Base().Add(-5 * 1e9))
+		p.DeletionTimestamp = &t
+		c.Pods = append(c.Pods, p)
+	}
+	withGone := nondet.String("terminatingDuplicate", "none", "listed-before", "listed-after")
+	if withGone == "listed-before" {
+		terminatingDup()
+	}
 	if dup {
 		c.Pods = append(c.Pods, zzPod("pod0dup", zzNodeName(0), zzRSName, zzHashNew, 0, corev1.PodRunning, true, nondet.Base().Add(-60*1e9)))
+	}
+	if withGone == "listed-after" {
+		terminatingDup()
 	}
 	if nondet.Bool("withOutdated") {
 		c.Pods = append(c.Pods, zzPod("pod1", zzNodeName(1), zzOldRS, zzHashOld, 0, corev1.PodRunning, true, nondet.Base().Add(-120*1e9)))
